@@ -255,7 +255,7 @@ Plan plan_C19(Rng& r, const std::string& tier) {
 	uint64_t x = r.below(100);
 	if (x < 45) {
 		gen::TAOpts o; o.max_states = r.chance(1, 4) ? r.range(7, 14) : r.range(1, 6); o.sparse = r.chance(1, 3);
-		TA A = gen::gen_ta(r, pool, o), B = r.chance(1, 2) ? gen::derive_ta(r, pool, A, int(r.below(6))) : gen::gen_ta(r, pool, o);
+		TA A, B; gen::gen_incl_pair(r, pool, o.max_states, o.sparse, A, B);
 		long mask = o.max_states > 6 ? (3 | (r.chance(1, 2) ? 0x30 : 0)) : 255;      // big ones: upward always, downward recursive sometimes
 		p.steps.push_back(gen::mk(0, "c19_twins", {long(r.below(1000000)), mask, 3}, mdl::to_lit(A) + " || " + mdl::to_lit(B)));
 	} else if (x < 75) {
